@@ -180,12 +180,90 @@ int main(int argc, char** argv) {
     }
   }
   vr::Family f5;
+  // LV: member COUNTS. Target of N members, source bringing M new keys and updates of the first / middle / last
+  // existing member, in 4 layouts: any growth of the target's member array happens while the merge is in progress
+  static std::vector<unsigned> NV = {0, 1, 2, 3, 8, 15, 16, 17, 24, 31, 32, 33, 34, 40, 64, 65}, MV;
+  if (MV.empty()) {
+    for (unsigned m = 0; m <= 40; m++) MV.push_back(m);
+    for (unsigned m : {48u, 63u, 64u, 65u, 100u}) MV.push_back(m);
+  }
+  vr::Family f6;
+  f6.name = "LV_member_counts";
+  f6.count = (uint64_t)NV.size() * MV.size() * 4 * 2 * 2;
+  f6.group = "LV";
+  f6.chunk = 64;
+  f6.rule = "target object of N members (N in {0,1,2,3,8,15..17,24,31..34,40,64,65}) x source with M new keys (every M in 0..40 and 48,63..65,100) plus updates of the first, middle and last existing member, in 4 layouts (new keys first / existing first / interleaved / new first with updates in reverse order), update by nested merge or by replacement, at the root and one level down";
   f5.name = "LW_wide_mixed_keys";
   f5.count = (uint64_t)kpool.size() * 8 * 14;
   f5.group = "LW";
   f5.chunk = 64;
   f5.rule = "targets with 12 members named pool[i], pool[i+s], ... (" + std::to_string(kpool.size()) + " names of length 1..33 differing at byte 0,1,7,8,16; 8 strides = insertion orders), each value an object; sources that update one existing member (12 choices: nested merge), add a new one, or do both: the member must be merged in place, nothing duplicated or lost";
   vr::CheckFn check = [&](const vr::Family& f, uint64_t idx, vr::Ctx& ctx) {
+    if (f.name[1] == 'V') {
+      unsigned nest = (unsigned)(idx % 2);
+      idx /= 2;
+      unsigned repl = (unsigned)(idx % 2);
+      idx /= 2;
+      unsigned layout = (unsigned)(idx % 4);
+      idx /= 4;
+      unsigned M = MV[idx % MV.size()];
+      unsigned N = NV[idx / MV.size()];
+      auto tk = [](unsigned j) { return "\"k" + std::to_string(j) + "\""; };
+      std::string t = "{";
+      for (unsigned j = 0; j < N; j++) t += std::string(j ? "," : "") + tk(j) + ":{\"v\":" + std::to_string(j) + "}";
+      t += "}";
+      // updates of existing members, in target order: first, middle, last (fewer when N is small)
+      std::vector<unsigned> upd;
+      if (N) upd.push_back(0);
+      if (N > 2) upd.push_back(N / 2);
+      if (N > 1) upd.push_back(N - 1);
+      if (layout == 3) std::reverse(upd.begin(), upd.end());
+      std::vector<std::string> news, upds;
+      for (unsigned j = 0; j < M; j++) news.push_back("\"n" + std::to_string(j) + "\":" + std::to_string(j));
+      for (unsigned u : upd) upds.push_back(tk(u) + ":" + (repl ? "\"replaced\"" : "{\"w\":" + std::to_string(u) + "}"));
+      std::vector<std::string> items;
+      if (layout == 0 || layout == 3) {  // new keys first, then the existing ones
+        items = news;
+        items.insert(items.end(), upds.begin(), upds.end());
+      } else if (layout == 1) {  // existing first
+        items = upds;
+        items.insert(items.end(), news.begin(), news.end());
+      } else {  // interleaved: the updates spread evenly among the new keys
+        size_t ui = 0;
+        for (size_t j = 0; j < news.size(); j++) {
+          if (ui < upds.size() && j * upds.size() >= ui * news.size()) items.push_back(upds[ui++]);
+          items.push_back(news[j]);
+        }
+        while (ui < upds.size()) items.push_back(upds[ui++]);
+      }
+      std::string s2 = "{";
+      for (size_t j = 0; j < items.size(); j++) s2 += (j ? "," : "") + items[j];
+      s2 += "}";
+      if (nest) {
+        t = "{\"outer\":" + t + ",\"z\":1}";
+        s2 = "{\"outer\":" + s2 + "}";
+      }
+      ref::Result rt = ref::parse(t), rs = ref::parse(s2);
+      ctx.eval();
+      ctx.nontriv();
+      std::string desc = "target of " + std::to_string(N) + " members, source with " + std::to_string(M) + " new keys, layout " + std::to_string(layout) + (repl ? " replace" : " merge") + (nest ? " nested" : "") + ": source=" + s2.substr(0, 300);
+      if (ctx.want_sample) ctx.sample(desc.substr(0, 200));
+      if (!rt.ok || !rs.ok) {
+        ctx.violation("harness", "harness_generator", desc, "harness error: generated text invalid");
+        return;
+      }
+      ExactBuf tb(t), sb(s2);
+      std::string out = sonic_json::UpdateLazy(sonic_json::StringView(tb.p, tb.n), sonic_json::StringView(sb.p, sb.n));
+      ref::Result r = ref::parse(out);
+      ref::Value exp = mergeL(rt.v, rs.v);
+      if (!r.ok)
+        ctx.violation("lazy_invalid_output", "lazy_invalid_output_counts", desc, "UpdateLazy returned %s which is not valid JSON", out.substr(0, 300).c_str());
+      else if (ref::has_dup_keys(r.v))
+        ctx.violation("lazy_dup_keys", "lazy_dup_keys_counts", desc, "result has duplicate keys: %s", out.substr(0, 600).c_str());
+      else if (!ref::equal(r.v, exp))
+        ctx.violation("lazy_result", "lazy_result_counts", desc, "UpdateLazy returned %s, expected a value equal to %s", out.substr(0, 500).c_str(), ref::show(exp).substr(0, 500).c_str());
+      return;
+    }
     if (f.name[1] == 'W') {
       static const unsigned strides[8] = {1, 2, 3, 5, 7, 11, 13, 17};
       unsigned which = (unsigned)(idx % 14);
@@ -303,7 +381,7 @@ int main(int argc, char** argv) {
     if (ref::has_dup_keys(r.v)) ctx.violation("lazy_dup_keys", "lazy_dup_keys", desc, "result %s has duplicate keys", out.c_str());
   };
 
-  std::vector<vr::Family> fams = {f1, f2, f3, f4, f5};
+  std::vector<vr::Family> fams = {f1, f2, f3, f4, f5, f6};
   if (args.replay) return R.replay_one(fams, check);
   const std::string only = args.get("only");
   for (auto& f : fams)
